@@ -1287,3 +1287,131 @@ pub fn main(args: &Args) -> Report {
     }
     rep
 }
+
+// ---------------------------------------------------------------------------------------------
+// the C ABI under the undefined-behaviour interpreter
+// ---------------------------------------------------------------------------------------------
+
+/// `vmon C34-miri`: one pass over every kind of C API call, small enough for Miri. The C ABI is
+/// the only `unsafe` code of the project; what Miri watches here is its pointer handling
+/// (handles from `Box::into_raw`, strings from `CString::into_raw`, out-parameters, the error
+/// buffer copy, the `'static` transaction borrowing the boxed database).
+pub fn miri_script() {
+    use ndb_capi as c;
+    use std::ffi::CString;
+    let dir = ScratchDir::new("c34miri");
+    let db = CDb::open(&dir.db_base()).expect("ndb_open");
+    let mut calls = 0usize;
+    let mut step = |what: &str| {
+        calls += 1;
+        println!("call {calls}: {what}");
+    };
+    step("ndb_execute_write create");
+    assert!(db.execute_write("CREATE (:A {uid: 1, name: 'ż', v: 1.5, l: [1, 2]})-[:R {k: 1}]->(:B {uid: 2})", None).is_ok());
+    step("ndb_execute_write with parameters");
+    assert!(db.execute_write("MATCH (n {uid: $u}) SET n += $m", Some("{\"u\": 1, \"m\": {\"w\": 3, \"s\": \"é\"}}")).is_ok());
+    step("ndb_query every value kind");
+    let j = db.query("MATCH p = (a)-[r]->(b) RETURN a, r, p, {m: [a.uid, null, 1.5]} AS m, 0.0/0.0 AS nan", None).expect("ndb_query");
+    assert_eq!(j.as_array().map(|a| a.len()), Some(1));
+    step("ndb_query refusing a write");
+    assert!(db.query("CREATE (:X)", None).is_err());
+    step("ndb_query syntax error + error buffer sizes");
+    assert!(db.query("RETURN 'abc", None).is_err());
+    for len in [0usize, 1, 2, 8, 4096] {
+        let mut buf = vec![0x7fu8; len.max(1)];
+        let n = c::ndb_last_error_message(if len == 0 { std::ptr::null_mut() } else { buf.as_mut_ptr() as *mut c_char_ }, len);
+        assert!(n > 0);
+        if len > 0 {
+            assert!(buf[..len].contains(&0), "error message is NUL-terminated inside the buffer");
+        }
+    }
+    let _ = (c::ndb_last_error_code(), c::ndb_last_error_category());
+    step("non-ASCII statement");
+    assert!(db.query("WITH 'é' AS x RETURN x", None).is_ok());
+    step("statement API: bind every kind, step, columns, reset, finalize");
+    {
+        let mut st = db.prepare("RETURN $a AS a, $b AS b, $c AS c, $d AS d, $e AS e, $f AS f, $g AS g", false).expect("prepare_read");
+        st.bind("a", Bind::Null).unwrap();
+        st.bind("b", Bind::Bool(true)).unwrap();
+        st.bind("c", Bind::Int(i64::MIN)).unwrap();
+        st.bind("d", Bind::Double(-0.0)).unwrap();
+        st.bind("e", Bind::Str("日本")).unwrap();
+        st.bind("f", Bind::List("[1, [2, null], \"x\"]".into())).unwrap();
+        st.bind("g", Bind::Map("{\"k\": {\"n\": 1.5}}".into())).unwrap();
+        let row = st.step().expect("step").expect("one row");
+        assert_eq!(row.len(), 7);
+        assert!(st.step().expect("step").is_none());
+        st.reset().unwrap();
+        assert!(st.step().expect("step after reset").is_some());
+        assert!(st.bind("", Bind::Null).is_err());
+        assert!(st.bind("f", Bind::List("{}".into())).is_err());
+    }
+    step("statement API: entity columns");
+    {
+        let mut st = db.prepare("MATCH p = (a)-[r]->(b) RETURN a, r, p", false).expect("prepare_read");
+        while let Some(r) = st.step().expect("step") {
+            assert_eq!(r.len(), 3);
+        }
+    }
+    step("statement API: write statement");
+    {
+        let mut st = db.prepare("CREATE (:C {uid: $u})", true).expect("prepare_write");
+        st.bind("u", Bind::Int(3)).unwrap();
+        assert!(st.step().expect("step").is_none());
+        assert_eq!(st.write_count().unwrap(), 1);
+        assert!(db.prepare("RETURN 1", true).is_err());
+        assert!(db.prepare("CREATE (:X)", false).is_err());
+    }
+    step("explicit transaction: statements, failing statement, commit");
+    {
+        let mut t = db.begin_write().expect("begin_write");
+        t.query("CREATE (:D {uid: 4})", None).unwrap();
+        assert!(t.query("UNWIND [true, 1.5] AS x CREATE (:F {uid: 9, v: toBoolean(x)})", None).is_err());
+        assert!(t.query("RETURN 1", None).is_err());
+        t.commit().unwrap();
+    }
+    step("explicit transaction: rollback, and drop without commit");
+    {
+        let mut t = db.begin_write().expect("begin_write");
+        t.query("CREATE (:D {uid: 5})", None).unwrap();
+        t.rollback().unwrap();
+        let mut t2 = db.begin_write().expect("begin_write");
+        t2.query("CREATE (:D {uid: 6})", None).unwrap();
+        drop(t2);
+    }
+    step("null pointers at every entry point");
+    {
+        let q = CString::new("RETURN 1").unwrap();
+        let mut res: *mut c::ndb_result_t = std::ptr::null_mut();
+        assert_ne!(c::ndb_query(std::ptr::null_mut(), q.as_ptr(), std::ptr::null(), &mut res), c::NDB_OK);
+        assert_ne!(c::ndb_execute_write(std::ptr::null_mut(), q.as_ptr(), std::ptr::null(), std::ptr::null_mut()), c::NDB_OK);
+        assert_ne!(c::ndb_close(std::ptr::null_mut()), c::NDB_OK);
+        c::ndb_result_free(std::ptr::null_mut());
+        c::ndb_string_free(std::ptr::null_mut());
+        assert_eq!(c::ndb_stmt_finalize(std::ptr::null_mut()), c::NDB_OK);
+        let mut st: *mut c::ndb_stmt_t = std::ptr::null_mut();
+        assert_ne!(c::ndb_prepare_read(std::ptr::null_mut(), q.as_ptr(), &mut st), c::NDB_OK);
+        let mut state = 0;
+        assert_ne!(c::ndb_stmt_step(std::ptr::null_mut(), &mut state), c::NDB_OK);
+        assert_ne!(c::ndb_txn_commit(std::ptr::null_mut()), c::NDB_OK);
+        assert_ne!(c::ndb_open(std::ptr::null(), std::ptr::null_mut()), c::NDB_OK);
+    }
+    step("maintenance entry points");
+    assert!(db.compact().is_ok());
+    let after = db.query("MATCH (n) RETURN count(n) AS c", None).expect("count");
+    assert_eq!(after[0]["c"], serde_json::json!(4));
+    step("ndb_close with an open transaction is refused, then close");
+    {
+        let t = db.begin_write().expect("begin_write");
+        // closing now must be refused (BUSY) and must leave the handle usable
+        let raw_close_refused = db.try_close_while_busy();
+        assert!(raw_close_refused);
+        t.rollback().unwrap();
+    }
+    assert!(db.query("RETURN 1 AS x", None).is_ok());
+    db.close().expect("ndb_close");
+    println!("MIRI-SCRIPT-OK {calls}");
+}
+
+#[allow(non_camel_case_types)]
+type c_char_ = std::os::raw::c_char;
